@@ -19,7 +19,7 @@ P = {
         "runs": {"quick": 4000, "thorough": 400000},
         "budget_s": {"quick": 150, "thorough": 3000},
         "rule": "one scenario = one generated dialogue (grammar-derived commands with scenario-unique tags) delivered under a seeded segmentation/pipelining/idle-gap choice, run twice in fresh simulated servers (as generated and as the one-command-per-segment lock-step baseline); distinct = distinct digest of the full step trace + event list + client transcript; non-trivial = the delivery contains at least one cut inside a command or two commands sharing a segment",
-        "components": comp(real=["services ftp, smtp, redis, memcached, telnet, http (real handlers)"]),
+        "components": comp(real=["services ftp, smtp, redis, memcached, telnet, http, ldap, elasticsearch, eos, ethereum, docker, cwmp, ipp (TCP) and dns, tftp, snmp, memcached, counterstrike, echo, ntp (UDP through the real socket listener -> DummyUDPConn -> dispatcher): real handlers"]),
         "assumptions": ["interleavings finer than one delivered segment are not explored", "GOMAXPROCS=1 in workers (part of the design)"],
     },
     "C08": {
